@@ -368,9 +368,13 @@ class ThreadRun:
         self.final_repr = None
         self.on_op = on_op
         self.open_after_close = None
+        self.close_intents: list = []
 
     def _gate(self, kind, pipe, info):
         s = self.sched
+        if kind == "close" and pipe is not None:
+            # the connection object has already been marked closed by the closing thread when it reaches the network close
+            self.close_intents.append((self.world.seq, s.current.id if s.current else None, pipe.id))
         s.yield_point(("op", kind))
         if kind == "read" and pipe is not None and not (pipe.readable or pipe.client_closed):
             s.block(lambda: pipe.readable or pipe.client_closed, site=("read", pipe.id))
